@@ -297,6 +297,13 @@ def run(F, R, tier):
                 "get_audit_entry builds Ok(..) only under the Ok edge of redirector::lookup_audit",
                 witness={"path_lines": BG.path_lines(p)} if p else None)
 
+    # ---------------------------------------------------------------- R7 helper contract: the traversal test
+    from lib import contracts
+    R.rule("C01.R7", "contains_traversal_characters() is path(url).contains(\"..\")")
+    contracts.result_is_call_on(F, R, "C01.R7", "azure_proxy_agent::proxy::proxy_connection::HttpConnectionContext::contains_traversal_characters",
+                                "contains", ("self.url", ["Uri::path"]), "'..'",
+                                "the traversal guard is str::contains(Uri::path(self.url), \"..\") - any '..' anywhere in the path")
+
     if tier == "thorough":
         # R6: the /provision short-circuit reaches no send site
         pv = [c[0] for c in B.calls_named("ProxyServer::handle_provision_state_check_request")]
